@@ -257,6 +257,15 @@ fn collect_cached_files(cache_dir: &Path) -> Result<(Vec<CachedFile>, u64)> {
     for maybe_entry in std::fs::read_dir(cache_dir)? {
         count += 1;
         if let Ok(entry) = maybe_entry {
+            // Cached files never start with a dot: that namespace is
+            // reserved for Kismet's own `.kismet*` entries and for
+            // the application's private files.  Neither count nor
+            // evict them.
+            if entry.file_name().as_encoded_bytes().first() == Some(&b'.') {
+                count -= 1;
+                continue;
+            }
+
             let meta = match entry.metadata() {
                 Ok(meta) => meta,
                 Err(e) if is_absent_file_error(&e) => continue,
